@@ -115,7 +115,7 @@ func (s *Des) ReadByteSlice() []byte {
 		return []byte{}
 	}
 	s.data = s.data[read:]
-	if len(s.data) < int(length) {
+	if uint64(len(s.data)) < length {
 		s.err = errors.New(getCaller() + " invalid binary length")
 		return []byte{}
 	}
